@@ -186,6 +186,12 @@ func (e *env) addRes(kind string, i int) {
 			if ok && strings.Join(sink.received, ",") != strings.Join(m.Committed, ",") && sameMultiset(sink.received, m.Committed) && snet.Of(w).DialsTo(addr) > 1 {
 				w.Fail("mailbox_reorder_across_connections", "sink of %s obtained %v, committed sections sent %v: same messages, another order, after the sender reconnected (%d connections) | %s", name, sink.received, m.Committed, snet.Of(w).DialsTo(addr), e.describe())
 			}
+			// recorded finding (same as C06): a commit retried on a new connection publishes its
+			// batch again. Attributed only if the sender did reconnect and the sink obtained
+			// exactly the committed sequence plus repeated copies of messages in it.
+			if ok && snet.Of(w).DialsTo(addr) > 1 && len(sink.received) > len(m.Committed) && strings.Join(dropRepeats(sink.received), ",") == strings.Join(m.Committed, ",") {
+				w.Fail("duplicate_after_reconnect", "sink of %s obtained %v, committed sections sent %v: committed messages delivered again after the sender reconnected (%d connections) | %s", name, sink.received, m.Committed, snet.Of(w).DialsTo(addr), e.describe())
+			}
 			if !ok || strings.Join(sink.received, ",") != strings.Join(m.Committed, ",") {
 				w.Fail("delivery_mismatch", "sink of %s obtained %v, committed sections sent %v | %s", name, sink.received, m.Committed, e.describe())
 			}
@@ -532,6 +538,19 @@ func scenario(w *sim.World) {
 						w.Probe("abort_in_read")
 						return err
 					}
+					if q, ok := r.Model.(*ulib.InQueueModel); ok && r.Kind == "mbox_in" && (blocked || ulib.Canon(got) != want) {
+						// a message obtained AGAIN after the sender went over to a new connection
+						// (its commit was retried there): recorded finding (C06 duplicate_after_reconnect)
+						again := false
+						for _, x := range q.All[:q.Consumed] {
+							if x == ulib.Canon(got) {
+								again = true
+							}
+						}
+						if again && snet.Of(w).DialsTo(r.addr) > 1 {
+							w.Fail("duplicate_after_reconnect", "read of %s returned %s, which a committed section had already consumed, after the sender reconnected (%d connections) | %s", r.Name, ulib.Canon(got), snet.Of(w).DialsTo(r.addr), e.describe())
+						}
+					}
 					if blocked {
 						w.Fail("read_invented_value", "read of %s%s returned %s although every offered input had been consumed by committed sections | %s", r.Name, key, ulib.Canon(got), e.describe())
 					}
@@ -666,6 +685,19 @@ func TestWorker(t *testing.T) {
 			return map[string]any{"events": r.Events[:min(len(r.Events), 2)], "probes": r.Probes, "faults": r.Faults, "attempts": r.Counts["attempts"], "reads_checked": r.Counts["reads_checked"]}
 		},
 	})
+}
+
+// dropRepeats keeps the first occurrence of every message.
+func dropRepeats(a []string) []string {
+	seen := map[string]bool{}
+	var out []string
+	for _, x := range a {
+		if !seen[x] {
+			seen[x] = true
+			out = append(out, x)
+		}
+	}
+	return out
 }
 
 func sameMultiset(a, b []string) bool {
